@@ -468,6 +468,10 @@ func (f *Frame) havocModifiesIn(m string, fc *FuncContract, pkg *types.Package, 
 			st.heap[region] = u.sc.fresh("gh", u.te.sortOf(t))
 			return
 		}
+		if region, t, ok := u.globalGhost(x.Name); ok {
+			st.heap[region] = u.sc.fresh("gg", u.te.sortOf(t))
+			return
+		}
 		if pkg != nil {
 			if gv, ok := pkg.Scope().Lookup(x.Name).(*types.Var); ok {
 				region := globalRegion(gv)
@@ -820,6 +824,9 @@ func modifiesRegions(u *Unit, m string, fc *FuncContract, fn *ssa.Function, pkg 
 			if gv, ok := pkg.Scope().Lookup(x.Name).(*types.Var); ok {
 				return []string{globalRegion(gv)}
 			}
+		}
+		if region, _, ok := u.globalGhost(x.Name); ok {
+			return []string{region}
 		}
 		return []string{"Gh_" + x.Name}
 	}
@@ -1314,6 +1321,11 @@ func (f *Frame) siteHook(kind string, ins ssa.Instruction, st *State, extra map[
 			}
 			gt, ok := f.ghostTy[g.Name]
 			if !ok {
+				if region, t, isG := f.u.globalGhost(g.Name); isG {
+					v = ce.coerce(v, t)
+					st.heap[region] = f.u.freshDef("gg", v.T)
+					continue
+				}
 				f.errorf("unknown ghost variable %s", g.Name)
 				continue
 			}
@@ -1635,6 +1647,11 @@ func (root *Frame) siteFromInlined(sub *Frame, kind string, ins ssa.Instruction,
 				}
 				gt, ok := root.ghostTy[g.Name]
 				if !ok {
+					if region, t, isG := root.u.globalGhost(g.Name); isG {
+						v = ce.coerce(v, t)
+						st.heap[region] = root.u.freshDef("gg", v.T)
+						continue
+					}
 					root.errorf("unknown ghost variable %s", g.Name)
 					continue
 				}
